@@ -1561,6 +1561,62 @@ fn kind_broadword(rng: &mut Rng, out: &mut Out, id: &str, tier: &str) {
     out.end();
 }
 
+// kind 14: primitive / Option / Vec wrappers (C08, C13): checked against a reference encoder written here
+// (little-endian fixed width; Option = 1 tag byte + payload; Vec = 8-byte length + elements)
+trait RefEnc { fn enc(&self, out: &mut Vec<u8>); }
+macro_rules! refenc_prim { ($($t:ty),*) => { $(impl RefEnc for $t { fn enc(&self, out: &mut Vec<u8>) { out.extend_from_slice(&self.to_le_bytes()); } })* } }
+refenc_prim!(u8, u16, u32, u64, usize, i8, i16, i32, i64, isize);
+impl RefEnc for bool { fn enc(&self, out: &mut Vec<u8>) { out.push(*self as u8); } }
+impl<T: RefEnc> RefEnc for Option<T> { fn enc(&self, out: &mut Vec<u8>) { match self { Some(x) => { out.push(1); x.enc(out) } None => out.push(0) } } }
+impl<T: RefEnc> RefEnc for Vec<T> { fn enc(&self, out: &mut Vec<u8>) { out.extend_from_slice(&(self.len() as u64).to_le_bytes()); for x in self { x.enc(out); } } }
+
+fn wrap_check<T: Serializable + RefEnc + PartialEq>(x: &T, tag: usize, rng: &mut Rng, out: &mut Out) {
+    let mut expect = vec![];
+    x.enc(&mut expect);
+    let ok = guard(|| {
+        let mut bytes = vec![];
+        let n = match x.serialize_into(&mut bytes) { Ok(n) => n, Err(_) => return false };
+        if bytes != expect || n != bytes.len() || x.size_in_bytes() != bytes.len() { return false; }
+        // round trip with junk, reader position
+        let mut with_junk = bytes.clone();
+        with_junk.extend_from_slice(&[9, 9]);
+        let mut rd: &[u8] = &with_junk;
+        match T::deserialize_from(&mut rd) { Ok(v) => if !(v == *x && rd.len() == 2) { return false; }, Err(_) => return false }
+        // every strict prefix fails, every too-small budget fails
+        for k in 0..bytes.len() {
+            if T::deserialize_from(&bytes[..k]).is_ok() { return false; }
+            let mut w = LimitedWriter { budget: k, written: vec![] };
+            if x.serialize_into(&mut w).is_ok() { return false; }
+        }
+        true
+    });
+    let _ = rng;
+    out.op(94, &[tag], match ok { None => "P".into(), Some(b) => format!("b:{}", b as u8) }, "wrapper check");
+}
+
+fn kind_wrappers(rng: &mut Rng, out: &mut Out, id: &str, _tier: &str) {
+    out.case(id);
+    out.op(1014, &[], "K".into(), "wrappers");
+    for _ in 0..6 {
+        let r = rng.next();
+        wrap_check(&(r as u8), 1, rng, out); wrap_check(&(r as u16), 2, rng, out); wrap_check(&(r as u32), 3, rng, out);
+        wrap_check(&(r as u64), 4, rng, out); wrap_check(&(r as usize), 5, rng, out); wrap_check(&(r as i8), 6, rng, out);
+        wrap_check(&(r as i16), 7, rng, out); wrap_check(&(r as i32), 8, rng, out); wrap_check(&(r as i64), 9, rng, out);
+        wrap_check(&(r as isize), 10, rng, out); wrap_check(&(r & 1 == 1), 11, rng, out);
+        wrap_check(&(if r & 2 == 0 { None } else { Some(r as u32) }), 12, rng, out);
+        wrap_check(&(if r & 4 == 0 { None } else { Some(r as i64) }), 13, rng, out);
+        let n = rng.below(40) as usize;
+        wrap_check(&(0..n).map(|_| rng.next() as u32).collect::<Vec<u32>>(), 14, rng, out);
+        wrap_check(&(0..n).map(|_| rng.next() as i16).collect::<Vec<i16>>(), 15, rng, out);
+        wrap_check(&(0..n).map(|_| rng.chance(1, 2)).collect::<Vec<bool>>(), 16, rng, out);
+        wrap_check(&(0..n % 7).map(|_| { let m = rng.below(6) as usize; if rng.chance(1, 3) { None } else { Some((0..m).map(|_| rng.next() as u16).collect::<Vec<u16>>()) } }).collect::<Vec<Option<Vec<u16>>>>(), 17, rng, out);
+        wrap_check(&Some((0..n % 5).map(|_| (0..rng.below(4)).map(|_| rng.next() as u8).collect::<Vec<u8>>()).collect::<Vec<Vec<u8>>>()), 18, rng, out);
+        wrap_check(&Vec::<u64>::new(), 19, rng, out);
+        wrap_check(&Option::<Option<bool>>::Some(None), 20, rng, out);
+    }
+    out.end();
+}
+
 // kind 13: a structure whose Vec has more than 65536 (and more than 2^16 + a few) elements: serialization
 // round trip and a few truncations / budgets only (no spec list is kept for it)
 fn kind_bigvec(rng: &mut Rng, out: &mut Out, id: &str, _tier: &str) {
@@ -1652,6 +1708,7 @@ fn main() {
                 11 => kind_broadword(&mut rng, &mut out, &id, tier),
                 12 => kind_ef_from_bits(&mut rng, &mut out, &id, tier),
                 13 => kind_bigvec(&mut rng, &mut out, &id, tier),
+                14 => kind_wrappers(&mut rng, &mut out, &id, tier),
                 _ => panic!("unknown kind"),
             }
         }
